@@ -536,7 +536,12 @@ class Exec:
             if st == -1 and lo is None and hi is None:
                 sp = self.w.rev_spec_for.get(repr(sv.ty))
                 if sp is not None:
-                    r = self.apply_spec(self.w.specs[sp], [sv])
+                    saved_fuel = self.fuel
+                    self.fuel = max(saved_fuel, 2)  # s[::-1] in the code: unfold the reversal twice here
+                    try:
+                        r = self.apply_spec(self.w.specs[sp], [sv])
+                    finally:
+                        self.fuel = saved_fuel
                     if ("lemma_len_" + sp) in self.w.lemmas:  # |rev(s)| == |s|, proved separately by induction
                         from .lemmas import LemmaFn
 
